@@ -61,14 +61,19 @@ fn scenario(param: u64) {
             let mut futs: Vec<OpFuture> = Vec::new();
             for j in 0..per_thread {
                 let mut h = handle.clone();
-                let kind = (t + j) % 4;
+                // kinds 4..6 are requests the builders refuse (no topic / no filter): they consume an
+                // identifier as well and then fail locally
+                let kind = (t * 3 + j * 5 + (param as usize / 7)) % 7;
                 let name = format!("t/{}", t * 100 + j);
                 let mut fut: OpFuture = Box::pin(async move {
                     match kind {
                         0 => drop(h.publish(PublishOpts::new().qos(QoS::AtLeastOnce).topic_name(&name).payload(b"x")).await),
                         1 => drop(h.publish(PublishOpts::new().qos(QoS::ExactlyOnce).topic_name(&name).payload(b"x")).await),
                         2 => drop(h.subscribe(SubscribeOpts::new().subscription(&name, SubscriptionOpts::new())).await.map(|_| ())),
-                        _ => drop(h.unsubscribe(UnsubscribeOpts::new().topic_filter(&name)).await.map(|_| ())),
+                        3 => drop(h.unsubscribe(UnsubscribeOpts::new().topic_filter(&name)).await.map(|_| ())),
+                        4 => drop(h.unsubscribe(UnsubscribeOpts::new()).await.map(|_| ())),
+                        5 => drop(h.publish(PublishOpts::new().qos(QoS::AtLeastOnce).payload(b"no topic")).await),
+                        _ => drop(h.subscribe(SubscribeOpts::new()).await.map(|_| ())),
                     }
                 });
                 // first poll: allocates the identifier(s) and submits the request
@@ -103,7 +108,15 @@ fn scenario(param: u64) {
             v.class = "C11/duplicate-id/threads".into();
         }
     }
-    assert_eq!(requests, threads * per_thread, "C11/lost-request: {} of {} requests reached the wire", requests, threads * per_thread);
+    let mut valid = 0usize;
+    for t in 0..threads {
+        for j in 0..per_thread {
+            if (t * 3 + j * 5 + (param as usize / 7)) % 7 < 4 {
+                valid += 1;
+            }
+        }
+    }
+    assert_eq!(requests, valid, "C11/lost-request: {} of {} valid requests reached the wire", requests, valid);
     assert!(viols.is_empty(), "{}: {}", viols[0].class, viols[0].message);
     drop(keep);
 }
